@@ -189,7 +189,7 @@ def build(ctx):
                 for cond, what, pc in ret.wd:
                     goals.append(tm.implies(tm.land(*pc), cond))
                 if not goals:
-                    return be.Verdict(be.REFUTED, "SMT", witness={}, detail="no well-definedness condition was generated (vacuous)")
+                    return be.Verdict(be.UNKNOWN, "SMT", detail="no well-definedness condition was generated: the obligation would be vacuous (undecided, never a violation)")
             for name, sat, ne, sr, km in PHASES:
                 k1, k2 = vals[name]
                 if kind == "range":
@@ -210,7 +210,8 @@ def build(ctx):
         prm = params_from(w)
         if prm["S_or"] + prm["S_wc"] + prm["S_gc"] >= 1 or not all(1 <= prm[k] <= 6 for k in NAMES[:3]) or not all(0 <= prm[k] <= 1 for k in NAMES[3:]):
             prm = params_from({})
-        plist = [prm, params_from({}), dict(params_from({}), n_o=2.0, n_w=4.0, n_g=2.0, S_or=0.25, S_wc=0.1, S_gc=0.15)]
+        plist = [prm, params_from({}), dict(params_from({}), n_o=2.0, n_w=4.0, n_g=2.0, S_or=0.25, S_wc=0.1, S_gc=0.15),
+                 dict(params_from({}), n_o=6.0, n_w=6.0, n_g=6.0, S_or=0.0, S_wc=0.0, S_gc=0.0), dict(params_from({}), k_ro_max=1e-250, k_rw_max=0.0, k_rg_max=1.0)]
         for prm, layout in [(p_, l_) for l_ in LAYOUTS for p_ in plist]:
             sats = []
             if all(isinstance(w.get(k), (int, float)) for k in ("So", "Sw", "Sg")) and abs(w["So"] + w["Sw"] + w["Sg"] - 1) <= 1e-3:
@@ -218,6 +219,9 @@ def build(ctx):
             for so in np.linspace(0, 1, 21):
                 for sw in np.linspace(0, 1 - so, 6):
                     sats.append((float(so), float(sw), float(1 - so - sw)))
+            # trace saturations (admissible: the triple sums to one to rounding) whose powers underflow, and saturations a hair above a residual
+            for tiny in (1e-60, 1e-200, 5e-324):
+                sats += [(1.0 - 0.3, 0.3, tiny), (tiny, 0.4, 0.6), (0.5, tiny, 0.5), (prm["S_or"] + tiny, 1 - prm["S_or"] - prm["S_gc"] - 0.1, prm["S_gc"] + 0.1)]
             try:
                 k = real_call(sats, prm, layout)
             except Exception as e:  # noqa: BLE001
